@@ -243,6 +243,34 @@ theorem C05_byValueDistinct_fixed :
       (i32 [some 2, some 2] (.strided [some 1, some 2] (some 0)))
       ⟨1000, [2, 2], [1, 1], 0⟩ ⟨5000, [2, 2], [1, 2], 0⟩ true true false = some true := by decide +kernel
 
+/-- `strided_source_address` at full strength, i.e. WITHOUT the clause `s ≠ 0` (`NonZeroStride`): also a broadcast
+source (static stride 0) would be addressed at `x · 0 · el = 0`. FALSE of the code as it is (D42). -/
+def strided_source_address_statement : Prop :=
+  ∀ (bv : Bool) (src dst : MemTy) (rs rd : Rt) (l : Lowered), transformDma bv src dst rs rd = .ok l →
+    (∀ t, src.layout ≠ .tsl t) → ∀ (strides : List (Option Nat)), extractStrides src = some strides →
+    ∀ (d s : Nat), strides[d]? = some (some s) → ∀ (es : List Entry), l.nested[d]? = some es →
+    ∀ (b0 : Option Nat) (bs : List Nat), es.map (·.ss.bound) = b0 :: bs.map some → (∀ b ∈ bs, b ≠ 0) →
+    ∀ x, (tileAddr es x).1 = x * (s * src.el)
+
+/-- D42: `memref<4x4xi32, strided<[0, 1]>>` (every row is the same data) into a destination tiled `[2, 2] x [4]`:
+`TiledStride.from_stride` tests `bound and steps[0]` by truthiness, the static inner step 0 makes the OUTER tile step
+`None`, `get_step_ops` then invents a run-time value for it (16 bytes) and row 2 is read from byte 16 instead of 0. -/
+theorem strided_source_address_nonZeroStride_fails : ¬ strided_source_address_statement := by
+  intro hst
+  have hw : transformDma false (i32 [some 4, some 4] (.strided [some 0, some 1] (some 0)))
+      (i32 [some 4, some 4] (.tsl ⟨[[⟨some 8, some 2⟩, ⟨some 4, some 2⟩], [⟨some 1, some 4⟩]], some 0⟩))
+      ⟨1000, [4, 4], [0, 1], 0⟩ ⟨5000, [4, 4], [], 0⟩ =
+      .ok ⟨⟨[[⟨none, some 2⟩, ⟨some 0, some 2⟩], [⟨some 1, some 4⟩]], some 0⟩,
+        ⟨[[⟨some 8, some 2⟩, ⟨some 4, some 2⟩], [⟨some 1, some 4⟩]], some 0⟩,
+        [[⟨⟨none, some 2⟩, ⟨some 8, some 2⟩, 2, 16, 32⟩, ⟨⟨some 0, some 2⟩, ⟨some 4, some 2⟩, 2, 0, 16⟩],
+         [⟨⟨some 1, some 4⟩, ⟨some 1, some 4⟩, 4, 4, 4⟩]],
+        [⟨some 1, some 4⟩], ⟨1000, 5000, [(2, 0, 16)], .twoD 16 16 32 2⟩⟩ := by decide +kernel
+  have := hst _ _ _ _ _ _ hw (by intro t h; cases h) [some 0, some 1] (by decide) 0 0 (by decide)
+    [⟨⟨none, some 2⟩, ⟨some 8, some 2⟩, 2, 16, 32⟩, ⟨⟨some 0, some 2⟩, ⟨some 4, some 2⟩, 2, 0, 16⟩] (by decide)
+    (some 2) [2] (by decide) (by decide) 2
+  revert this
+  decide +kernel
+
 /-- therefore the full statement is false of the code as it is (D40 witness) -/
 theorem C05_statement_fails : ¬ C05_statement := by
   intro hst
